@@ -140,32 +140,42 @@ pub fn strip_publish(prog: &[Instruction]) -> Vec<Instruction> {
 /// Mock-checker verdict of the compiled circuit of `prog` under witness `w` and raw public
 /// inputs `pi`.
 fn mock(prog: &[Instruction], w: &HashMap<&'static str, IrValue>, inst: Vec<(IrValue, IrType)>, pi: Vec<F>) -> String {
-    let r = catch(|| -> Result<String, String> {
-        let rel = ZkirRelation::from_instructions(prog).map_err(|e| format!("err:{}", classify_zkir(&e)))?;
-        let k = MidnightCircuit::from_relation(&rel).min_k();
-        let circuit = MidnightCircuit::new(&rel, Value::known(inst), Value::known(w.clone()), None);
-        match MockProver::run(k, &circuit, vec![vec![], pi]) {
-            Err(e) => Ok(format!("err:{}", classify_plonk(&e))),
-            // `verify` can panic while *describing* a violated gate that queries an unassigned
-            // cell (proofs/src/dev/util.rs `Value::Poison => unreachable!()`): that code is
-            // only reached for a constraint that is not satisfied.
-            Ok(p) => Ok(match catch(|| p.verify()) {
-                Ok(Ok(())) => "sat".to_string(),
-                Ok(Err(_)) => "unsat".to_string(),
-                Err(_) => {
-                    VERIFY_REPORT_PANICS.fetch_add(1, std::sync::atomic::Ordering::Relaxed);
-                    "unsat".to_string()
-                }
-            }),
-        }
-    });
-    match r {
-        Ok(Ok(s)) | Ok(Err(s)) => s,
-        Err(p) => {
-            if std::env::var("H_C18_DEBUG").is_ok() {
-                eprintln!("mock panic: {p}");
+    // `MockProver::run` asserts that the instance column fits in the usable rows. When the
+    // off-circuit instance is longer than what the (minimal) circuit binds, we enlarge the
+    // circuit instead: the extra values are then ignored by the checker, as for shorter ones.
+    let mut extra_k = 0;
+    loop {
+        let r = catch(|| -> Result<String, String> {
+            let rel = ZkirRelation::from_instructions(prog).map_err(|e| format!("err:{}", classify_zkir(&e)))?;
+            let k = MidnightCircuit::from_relation(&rel).min_k() + extra_k;
+            let circuit = MidnightCircuit::new(&rel, Value::known(inst.clone()), Value::known(w.clone()), None);
+            match MockProver::run(k, &circuit, vec![vec![], pi.clone()]) {
+                Err(e) => Ok(format!("err:{}", classify_plonk(&e))),
+                // `verify` can panic while *describing* a violated gate that queries an
+                // unassigned cell (proofs/src/dev/util.rs `Value::Poison => unreachable!()`):
+                // that code is only reached for a constraint that is not satisfied.
+                Ok(p) => Ok(match catch(|| p.verify()) {
+                    Ok(Ok(())) => "sat".to_string(),
+                    Ok(Err(_)) => "unsat".to_string(),
+                    Err(_) => {
+                        VERIFY_REPORT_PANICS.fetch_add(1, std::sync::atomic::Ordering::Relaxed);
+                        "unsat".to_string()
+                    }
+                }),
             }
-            "panic".to_string()
+        });
+        match r {
+            Ok(Ok(s)) | Ok(Err(s)) => return s,
+            Err(p) => {
+                if p.starts_with("instance.len=") && extra_k < 4 {
+                    extra_k += 1;
+                    continue;
+                }
+                if std::env::var("H_C18_DEBUG").is_ok() {
+                    eprintln!("mock panic: {p}");
+                }
+                return "panic".to_string();
+            }
         }
     }
 }
